@@ -153,12 +153,17 @@ def check_table_order_source(ctx, repo):
     """R1 (source end): the lists the scans iterate - struct.all_devices / struct.user_demands - are the
     log table's own key lists in the table's order, in both structure classes"""
     n_sites = 0
+    check_table_order_source.__dict__["_seen"] = set()
     for cname in STRUCTS:
         cls = repo.cls(cname, required=False)
         if cls is None:
             ctx.error(f"structure class {cname} vanished")
             continue
-        for m in cls.methods.values():
+        seen_m = check_table_order_source.__dict__.setdefault("_seen", set())
+        for m in [mm for k in repo.mro(cls) for mm in k.methods.values()]:
+            if id(m.node) in seen_m:
+                continue
+            seen_m.add(id(m.node))
             for n in walk_no_nested(m.node):
                 if isinstance(n, (ast.Assign, ast.AnnAssign)):
                     tgs = n.targets if isinstance(n, ast.Assign) else [n.target]
@@ -178,7 +183,7 @@ def check_table_order_source(ctx, repo):
                 # in-place reordering
                 if isinstance(n, ast.Call) and isinstance(n.func, ast.Attribute) and n.func.attr in ("sort", "reverse") and isinstance(n.func.value, ast.Attribute) and n.func.value.attr in SOURCES:
                     ctx.ob("R1", f"{m.qual}::{n.func.value.attr}::table-order", False, f"{m.qual}: in-place {n.func.attr}() of {ast.unparse(n.func.value)}", loc(m, n))
-    ctx.floor("R1", "struct.all_devices/user_demands definition sites", n_sites, 4)
+    ctx.floor("R1", "struct.all_devices/user_demands definition sites", n_sites, 2)
 
 
 def check(ctx):
